@@ -29,10 +29,10 @@ def fronts(cap, which=("plain", "sharded", "stack")):
     if "sharded" in which:
         out.append(("sharded", sharded("W", 2, max(cap, 2)), [root("W", "sharded", "w")], None))
     if "stack" in which:
-        c = stack(plain("W", cap), [plain("R1")], "none", True)
+        c = stack(plain("W", cap), [plain("R1")], "none")
         out.append(("stack", c, [root("W", "plain", "w"), root("R1", "plain", "ro")], "r1"))
     if "stacksh" in which:
-        c = stack(sharded("W", 2, max(cap, 2)), [plain("R1")], "none", True)
+        c = stack(sharded("W", 2, max(cap, 2)), [plain("R1")], "none")
         out.append(("stacksh", c, [root("W", "sharded", "w"), root("R1", "plain", "ro")], "r1"))
     return out
 
@@ -274,7 +274,7 @@ def seq_job(jid, fam, cache, prog, world=(), draw=NEVER, cfg_extra=None, roots=N
     cfg = {"roots": roots if roots is not None else roots_of(cache), "front": cache["kind"]}
     cfg["cap"] = cache.get("cap", cache.get("writer", {}).get("cap", 1000000) if isinstance(cache.get("writer"), dict) else 1000000)
     if cache["kind"] == "stack":
-        cfg["autosync"] = cache.get("auto_sync", True)
+        cfg["autosync"] = cache.get("auto_sync") is not False
         cfg["checker"] = cache.get("checker", "none")
     if cfg_extra:
         cfg.update(cfg_extra)
@@ -492,6 +492,194 @@ def check_C17(work):
     return finish("C17", out, t0, "model_checking", cov, BASE_ASSUME)
 
 
-CHECKS = {"C01": check_C01, "C05": check_C05, "C07": check_C07, "C16": check_C16, "C17": check_C17}
+
+# ---------------------------------------------------------------------------
+# C02 / C18 / C03: scenarios = (front, operation, pre-state)
+
+def scenario_table(thorough):
+    """Yields (name, cache, roots, cfg_extra, setup_parts, victim_prog, key)."""
+    k = "k"
+    H = {"hash": "1", "sec": "2"}      # shards (0, 1) of a 2-shard cache
+    H2 = {"hash": "3", "sec": "4"}     # shards (1, 0)
+    out = []
+
+    def add(name, cache, setup, prog, extra=None):
+        out.append((name, cache, setup, prog, extra or {}))
+
+    for fname, mk in (("plain", lambda cap: plain("W", cap)), ("sharded", lambda cap: sharded("W", 2, max(2, cap)))):
+        big = mk(100000)
+        small = mk(1) if fname == "plain" else mk(2)
+        for api in ("set", "put"):
+            add("%s:%s:nodirs" % (fname, api), big, [], [op(api, k, **H)])
+            add("%s:%s:absent" % (fname, api), big, [op("temp_dir", key=k, **H)], [op(api, k, **H)])
+            add("%s:%s:present" % (fname, api), big, [op("set", k, "old", **H)], [op(api, k, **H)])
+            add("%s:%s:overcap" % (fname, api), small, [op("set", "k3", "o3", **{"hash": "5", "sec": "9"}), op("set", k, "old", **H), op("get", k, **H),
+                                                     op("set", "k4", "o4", **{"hash": "5", "sec": "9"})],
+                [op(api, "k5", **{"hash": "5", "sec": "9"})], {"draw": ALWAYS})
+        add("%s:temp_dir:nodirs" % fname, big, [], [op("temp_dir", key=k, **H)])
+        add("%s:get:present" % fname, big, [op("set", k, "old", **H)], [op("get", k, **H)])
+        add("%s:touch:present" % fname, big, [op("set", k, "old", **H)], [op("touch", k, **H)])
+    # sharded: key lives in the shard that the load order makes the alternate one
+    add("sharded:set:secondary", sharded("W", 2, 100000), [op("mkfile", path="@TOP@/W/.kismet_0001/k", key=k, val="old2", chunks=1, mode=0o444, w=8)],
+        [op("set", k, **H)])
+    add("sharded:put:secondary", sharded("W", 2, 100000), [op("mkfile", path="@TOP@/W/.kismet_0001/k", key=k, val="old2", chunks=1, mode=0o444, w=8)],
+        [op("put", k, **H)])
+    for wname, wr in (("stack", plain("W", 100000)), ("stacksh", sharded("W", 2, 100000))):
+        c = stack(wr, [plain("R1")], "none")
+        ro_set = ("ro", [op("set", k, "ro1"), op("set", "k1", "ro1")])
+        add("%s:ensure:miss" % wname, c, [], [op("ensure", "k9", chunks=2, **H)])
+        add("%s:ensure:promote" % wname, c, [ro_set], [op("ensure", k, **H)])
+        add("%s:ensure:hit" % wname, c, [op("set", k, "old", **H)], [op("ensure", k, **H)])
+        add("%s:gou:replace" % wname, c, [op("set", k, "old", **H)], [op("gou", k, judge="replace", **H)])
+        add("%s:gou:promote" % wname, c, [ro_set], [op("gou", k, judge="promote", **H)])
+        add("%s:set_tf:absent" % wname, c, [], [op("set_tf", k, chunks=2, **H)])
+        add("%s:put_tf:present" % wname, c, [op("set", k, "old", **H)], [op("put_tf", k, **H)])
+        add("%s:set:absent" % wname, c, [], [op("set", k, **H)])
+        add("%s:put:absent" % wname, c, [], [op("put", k, **H)])
+        add("%s:get:secondary" % wname, c, [ro_set], [op("get", k, **H)])
+    return out
+
+
+def scenario_job(jid, fam, sc, explore, battery=True, age=True, followup=None):
+    name, cache, setup, prog, extra = sc
+    draw = extra.get("draw", NEVER)
+    stages = []
+    world_ops = [o for o in setup if not isinstance(o, tuple) and o["api"] in ("mkfile", "mkdir")]
+    lib_ops = [o for o in setup if not isinstance(o, tuple) and o["api"] not in ("mkfile", "mkdir")]
+    ro_ops = [o[1] for o in setup if isinstance(o, tuple)]
+    setup_parts = []
+    if world_ops:
+        setup_parts.append(part(9, plain("SRC/none"), world_ops, NEVER))
+    if lib_ops:
+        setup_parts.append(part(8, cache, with_vals(lib_ops, 8), NEVER))
+    for ro_prog in ro_ops:
+        setup_parts.append(part(7, plain("R1"), with_vals(ro_prog, 7), NEVER))
+    if setup_parts:
+        stages.append(seq_stage(*setup_parts))
+    v = seq_stage(part(1, cache, with_vals(prog, 1), draw, shard_script=[1, 0, 1, 0]))
+    v["victim"] = True
+    stages.append(v)
+    key = prog[0].get("key", "k")
+    hs = {x: prog[0][x] for x in ("hash", "sec") if x in prog[0]}
+    if followup is not None:
+        stages.append(seq_stage(part(2, cache, with_vals(followup, 2), NEVER, shard_script=[1, 0, 1, 0])))
+    if battery:
+        b = [op("get", key, **hs), op("touch", key, **hs), op("put", "k2", hash="3", sec="4"), op("set", key, **hs), op("get", key, **hs)]
+        if cache["kind"] == "stack":
+            b.append(op("ensure", "k8", hash="3", sec="4"))
+        stages.append(seq_stage(part(2, cache, with_vals(b, 2), ALWAYS, shard_script=[1, 0, 1, 0, 1, 0])))
+    if age:
+        stages.append({"tracer_op": "age_temp", "secs": 3700})
+        b2 = [op("set", "k6", hash="1", sec="2"), op("set", "k7", hash="3", sec="4"), op("get", key, **hs)]
+        stages.append(seq_stage(part(3, cache, with_vals(b2, 3), ALWAYS, shard_script=[1, 0, 1, 0, 1, 0])))
+    cfg = {"roots": roots_of(cache), "front": cache["kind"], "scenario": name}
+    if cache["kind"] == "stack":
+        cfg["autosync"] = True
+    return job(jid, stages, cfg, explore, fam=fam)
+
+
+def check_C02(work):
+    t0 = time.time()
+    out = Outcome("C02")
+    jobs = []
+    scs = scenario_table(TIER == "thorough")
+    for i, sc in enumerate(scs):
+        if sc[3][0]["api"] in ("get", "touch"):
+            continue
+        ex = {"kind": "crash", "part": 1, "runs": 400}
+        if TIER == "quick" and not sc[0].startswith("plain"):
+            ex["stride"] = 3
+            ex["offset"] = (seed() + i) % 3
+        jobs.append(scenario_job("C02-%d" % i, sc[0], sc, ex))
+    mons = ["DirValid", "DebrisConfined", "NoErr", "HandleContentOK", "RemovalOK", "YoungTempKept", "StaleGone", "ReadOnlyFirst", "Immutable"]
+
+    def key_of(job, mon, ev, evs):
+        inj = (evs[0].get("cfg") or {}).get("inject") or {}
+        return "%s@%s@before-%s" % (mon, job.get("fam"), inj.get("call", "none"))
+    st = trace_check(work, out, jobs, mons, tag="c02", key_of=key_of)
+    design = design_runs(work, out, Q(["MCcrashq"], ["MCcrashq", "MCcrash"]))
+    ms = st.get("mstats", {})
+    cov = dict(evaluations=st["runs"], distinct_nontrivial=ms.get("crashes", 0),
+               rule="for each (operation, front end, pre-state) scenario: one clean run, then one run per system call of the operation with the process "
+                    "SIGKILLed at the entry of that call (quick: every call for plain, every third for the other front ends); after the kill a fresh process "
+                    "runs get/touch/put/set/ensure with maintenance, debris is aged past the limit, maintenance runs again. distinct_nontrivial = runs in which "
+                    "the kill was actually delivered mid-operation (counted by the trace specification).",
+               samples=st["samples"][:3], scenarios=[s[0] for s in scs], monitors=mons, trace_events_validated=st["events"],
+               states=st["states"], fsmodel_mismatches=st["fsmodel_mismatches"], monitor_antecedents=ms,
+               design_level=[dict(cfg=d["cfg"], states=d["states"], transitions=d["transitions"], ok=d["ok"]) for d in design])
+    return finish("C02", out, t0, "fault_enumeration", cov, BASE_ASSUME + ["process crash (SIGKILL), not power loss"])
+
+
+ERRNOS_Q = {"open": ["EIO", "EMFILE"], "write": ["ENOSPC"], "copy": ["EIO"], "fsync": ["EIO"], "rename": ["EIO"], "link": ["EIO", "EACCES"],
+            "unlink": ["EIO"], "chmod": ["EACCES"], "utimens": ["EIO"], "getdents": ["EIO"], "stat": ["EIO", "ESTALE"], "close": ["EIO"],
+            "mkdir": ["EACCES"], "read": ["EIO"], "*": []}
+ERRNOS_T = {"open": ["EIO", "EACCES", "EMFILE", "ENOSPC", "ESTALE"], "write": ["EIO", "ENOSPC"], "copy": ["EIO", "ENOSPC"], "fsync": ["EIO"],
+            "rename": ["EIO", "EACCES", "ESTALE"], "link": ["EIO", "EACCES", "ESTALE", "EMFILE"], "unlink": ["EIO", "EACCES", "ESTALE"],
+            "chmod": ["EIO", "EACCES", "ESTALE"], "utimens": ["EIO", "EACCES", "ESTALE"], "getdents": ["EIO", "ESTALE"],
+            "stat": ["EIO", "ESTALE", "EACCES"], "close": ["EIO"], "mkdir": ["EIO", "EACCES", "ENOSPC"], "read": ["EIO"], "*": []}
+
+
+def check_C18(work):
+    t0 = time.time()
+    out = Outcome("C18")
+    jobs = []
+    scs = scenario_table(TIER == "thorough")
+    for i, sc in enumerate(scs):
+        name, cache, setup, prog, extra = sc
+        ex = {"kind": "fault", "part": 1, "runs": 1500, "errnos": Q(ERRNOS_Q, ERRNOS_T)}
+        o = dict(prog[0])
+        key = o.get("key", "k")
+        hs = {x: o[x] for x in ("hash", "sec") if x in o}
+        follow = [dict(o), op("get", key, **hs)] if o["api"] not in ("temp_dir",) else [dict(o)]
+        j = scenario_job("C18-%d" % i, name, sc, ex, battery=False, age=False, followup=follow)
+        # the faulted participant itself also looks the key up after its operation
+        j["stages"][-2]["parts"][0]["prog"] += with_vals([op("get", key, **hs)], 1) if o["api"] in ("set", "put", "set_tf", "put_tf", "ensure", "gou") else []
+        jobs.append(j)
+    mons = ["DirValid", "FaultOK", "FollowUpOK", "NoLeak", "HandleContentOK", "ReadsLastSet", "DebrisConfined", "Immutable"]
+
+    def key_of(job, mon, ev, evs):
+        inj = (evs[0].get("cfg") or {}).get("inject") or {}
+        return "%s@%s@%s:%s" % (mon, job.get("fam"), inj.get("call", "none"), inj.get("errno", ""))
+    st = trace_check(work, out, jobs, mons, tag="c18", key_of=key_of)
+    ms = st.get("mstats", {})
+    cov = dict(evaluations=st["runs"], distinct_nontrivial=ms.get("injected", 0),
+               rule="for each scenario (operation x front end x pre-state, incl. sharded key-in-alternate-shard): one clean run, then one run per library system call "
+                    "of the operation x errno plausible for that call class, with the call skipped and failed by the tracer (orig_rax=-1, rax=-errno); then the same "
+                    "operation and a lookup are re-issued by a fresh process. distinct_nontrivial = runs in which the injected call was really reached.",
+               samples=st["samples"][:3], scenarios=[s[0] for s in scs], monitors=mons, trace_events_validated=st["events"],
+               states=st["states"], fsmodel_mismatches=st["fsmodel_mismatches"], monitor_antecedents=ms)
+    return finish("C18", out, t0, "fault_enumeration", cov, BASE_ASSUME + ["one fault per run"])
+
+
+def check_C03(work):
+    t0 = time.time()
+    out = Outcome("C03")
+    jobs = []
+    scs = [sc for sc in scenario_table(True) if sc[1]["kind"] == "stack"]
+    for i, sc in enumerate(scs):
+        for chunks in (1, 3):
+            sc2 = (sc[0], sc[1], sc[2], [dict(o, chunks=chunks) for o in sc[3]], sc[4])
+            # clean record run + every fsync of the operation failing in turn
+            ex = {"kind": "fault", "part": 1, "runs": 50, "errnos": {"fsync": ["EIO"], "*": []}}
+            j = scenario_job("C03-%d-%d" % (i, chunks), "%s:chunks%d" % (sc[0], chunks), sc2, ex, battery=False, age=False,
+                             followup=[op("get", sc[3][0].get("key", "k"), hash="1", sec="2")])
+            if TIER == "thorough" and chunks == 3:
+                j["chunk"] = 262145
+            jobs.append(j)
+    mons = ["DurableFirst", "ReadOnlyFirst", "Immutable", "Mode0444", "DirValid"]
+
+    def key_of(job, mon, ev, evs):
+        inj = (evs[0].get("cfg") or {}).get("inject") or {}
+        return "%s@%s@%s" % (mon, job.get("fam"), inj.get("call", "clean"))
+    st = trace_check(work, out, jobs, mons, tag="c03", key_of=key_of)
+    ms = st.get("mstats", {})
+    cov = coverage_mc(st, [], "every publishing API path of the stacked cache (set, put, set_temp_file, put_temp_file, ensure miss/hit/promote, get_or_update "
+                      "replace/promote) x {plain, sharded} writer x {1, 3} chunks, complete system-call trace; then every fsync of the operation failing in turn; "
+                      "per-inode write/fsync/chmod/link/rename order judged by DurableFirst (flushed after the last write, not failed, read-only, before the "
+                      "name appears), Immutable, Mode0444", dict(jobs=len(jobs), monitors=mons, fsync_faults=ms.get("injected", 0)))
+    return finish("C03", out, t0, "model_checking", cov, BASE_ASSUME + ["whether the kernel's fsync is honest is outside the model"])
+
+
+CHECKS = {"C01": check_C01, "C02": check_C02, "C03": check_C03, "C05": check_C05, "C07": check_C07, "C16": check_C16, "C17": check_C17, "C18": check_C18}
 
 NOT_APPLICABLE = {}
